@@ -51,5 +51,26 @@ package primitives
 //@   loop 5:
 //@     invariant [C02] band: 0 <= i && i <= columns && j < rows - 2 && j0 == j * columns + 1 && j1 == (j + 1) * columns + 1 && len(tris) == 6 * columns + 6 * j * columns + 6 * i && v1i == 1 + (rows - 1) * columns && len(positions) == v1i + 1 && fresh(tris)
 //@     invariant [C02] band_indices: forall k int :: 0 <= k && k < len(tris) ==> 0 <= tris[k] && tris[k] <= v1i
-//@ func UVSphereUnwelded frameonly
-//@   props C01
+// UVSphereUnwelded: every triangle of the caps and every quad of the bands gets its own vertices: 6*columns + 4*columns*(rows-2)
+// positions, 6*columns*(rows-1) indices, every index one of those vertices.
+//@ func UVSphereUnwelded
+//@   props C01 C02
+//@   returns r
+//@   ensures [C02] well_formed_lengths: modeling.sameLen(r)
+//@   ensures [C02] well_formed_indices: modeling.idxOK(r)
+//@   ensures [C02] well_formed_topology: modeling.topoOK(r)
+//@   ensures [C02] attributes: has(r.v3Data, "Position") && r.topology == modeling.TriangleTopology
+//@   ensures [C02] counts: len(r.indices) == 6 * columns * (rows - 1) && len(r.v3Data["Position"]) == 6 * columns + 4 * columns * (rows - 2)
+//@   loop 1:
+//@     invariant [C02] rings: 0 <= i && i <= rows - 1 && len(calculatedPositions) == 1 + i * columns && fresh(calculatedPositions)
+//@   loop 2:
+//@     invariant [C02] ring: 0 <= j && j <= columns && i < rows - 1 && len(calculatedPositions) == 1 + i * columns + j && fresh(calculatedPositions)
+//@   loop 3:
+//@     invariant [C02] caps: 0 <= i && i <= columns && len(tris) == 6 * i && len(finalVerts) == 6 * i && v1i == 1 + (rows - 1) * columns && len(calculatedPositions) == v1i + 1 && fresh(tris) && fresh(finalVerts)
+//@     invariant [C02] cap_indices: forall k int :: 0 <= k && k < len(tris) ==> 0 <= tris[k] && tris[k] < len(finalVerts)
+//@   loop 4:
+//@     invariant [C02] bands: 0 <= j && (j <= rows - 2 || j == 0) && len(tris) == 6 * columns + 6 * j * columns && len(finalVerts) == 6 * columns + 4 * j * columns && v1i == 1 + (rows - 1) * columns && len(calculatedPositions) == v1i + 1 && fresh(tris) && fresh(finalVerts)
+//@     invariant [C02] band_indices: forall k int :: 0 <= k && k < len(tris) ==> 0 <= tris[k] && tris[k] < len(finalVerts)
+//@   loop 5:
+//@     invariant [C02] band: 0 <= i && i <= columns && j < rows - 2 && j0 == j * columns + 1 && j1 == (j + 1) * columns + 1 && len(tris) == 6 * columns + 6 * j * columns + 6 * i && len(finalVerts) == 6 * columns + 4 * j * columns + 4 * i && v1i == 1 + (rows - 1) * columns && len(calculatedPositions) == v1i + 1 && fresh(tris) && fresh(finalVerts)
+//@     invariant [C02] band_indices: forall k int :: 0 <= k && k < len(tris) ==> 0 <= tris[k] && tris[k] < len(finalVerts)
